@@ -42,11 +42,24 @@ StaleOK(r, D) == \A s \in ToSet(r.obs.stale) : s.id \in D /\ s.v = FALSE /\
                     (Has(s, "get") => \A f \in DOMAIN s.get : (IsThrow(s.get[f]) => s.get[f].std))
 DerivedOK(r, PI) == \A x \in ToSet(r.obs.tk) : x.id \in DOMAIN PI =>
                         x.get.fn.v = PI[x.id].base /\ x.get.ext.v = PI[x.id].ext
+\* C11 at track level (driver flag raw): the stored row of every live track carries the path the getter reports, the file name and
+\* extension (1.x: MetaData type 13; 2.x: fileType) derived from it, and (2.x) the origin columns of this database; SQLite's
+\* integrity and foreign-key checks are clean and verify() passes.
+RawTracksOK(r, PI) ==
+    Has(r.obs, "rawt") =>
+        LET rw == r.obs.rawt IN
+        /\ rw.integrity = "ok" /\ rw.fk = 0 /\ rw.verify = "ok"
+        /\ {x.id : x \in ToSet(rw.rows)} = ToSet(r.obs.tracks) /\ Len(rw.rows) = Len(r.obs.tracks)
+        /\ \A x \in ToSet(rw.rows) :
+              /\ x.ouuid /\ x.oid = x.id
+              /\ \A o \in ToSet(r.obs.tk) : o.id = x.id =>
+                    /\ (Has(o.get.relative_path, "v") => <<x.path>> = o.get.relative_path.v)
+                    /\ (x.id \in DOMAIN PI /\ PI[x.id].base # "=" => x.fn = PI[x.id].base /\ (PI[x.id].has_ext => x.ext = PI[x.id].ext))
 ObsOK(r, TS, D, F, PI) ==
     /\ Has(r, "obs")
     /\ DOMAIN TS = {x.id : x \in ToSet(r.obs.tk)}
     /\ ToSet(r.obs.tracks) = DOMAIN TS
-    /\ GettersAgree(r, F) /\ NoWrite(r) /\ StaleOK(r, D) /\ DerivedOK(r, PI)
+    /\ GettersAgree(r, F) /\ NoWrite(r) /\ StaleOK(r, D) /\ DerivedOK(r, PI) /\ RawTracksOK(r, PI)
 
 Unchanged(r) == Snaps(r) = ts
 V2TwoStatementSetters == {"bpm", "key", "sample_count", "sample_rate"}
